@@ -99,6 +99,9 @@ def run_property(pid, tier, seed, only=None, use_cache=True, keep=False, write_e
             todo.append(o)
 
     scratch_roots = []
+    pending_replays = []
+    if todo:
+        kani.clean_crate_artifacts()
     try:
         # ---- SMT obligations --------------------------------------------------------------
         smt_obs = [o for o in todo if o["engine"] == "smt"]
@@ -118,10 +121,10 @@ def run_property(pid, tier, seed, only=None, use_cache=True, keep=False, write_e
         by_cap = {}
         for o in kobs:
             t = o["tiers"][tier]
-            by_cap.setdefault((t["cap"], t["hcap"]), []).append(o)
-        for (cap, hcap), group in sorted(by_cap.items()):
+            by_cap.setdefault((t["cap"], t["hcap"], t["rcap"], t["kmax"], t["vmax"]), []).append(o)
+        for (cap, hcap, rcap, kmax, vmax), group in sorted(by_cap.items()):
             try:
-                root, repo_dir = scratch.make_scratch(f"{pid}-{cap}-{hcap}", cap=cap, hcap=hcap)
+                root, repo_dir = scratch.make_scratch(f"{pid}-{cap}-{hcap}", cap=cap, hcap=hcap, rcap=rcap, kmax=kmax, vmax=vmax)
             except Inconclusive as e:
                 for o in group:
                     results[o["id"]] = dict(verdict="inconclusive", detail=str(e))
@@ -155,11 +158,18 @@ def run_property(pid, tier, seed, only=None, use_cache=True, keep=False, write_e
                     r = dict(verdict=verdict, detail=detail, engine="kani", harness=entry["harness"],
                              functions=entry["functions"], props=entry["props"], cbmc=entry["cbmc"],
                              duration_s=entry["duration_s"], failed_checks=entry["failed_checks"],
-                             cmd=meta["cmd"], bounds_run=dict(cap=cap, hcap=hcap, unwind=unwind, unwindset=unwindset,
+                             cmd=meta["cmd"], bounds_run=dict(cap=cap, hcap=hcap, rocksdb_rows=rcap, rocksdb_kmax=kmax,
+                                                              rocksdb_vmax=vmax, unwind=unwind, unwindset=unwindset,
                                                               timeout_s=timeout))
                     if verdict == "fail":
-                        r["replay"] = replay(pid, o, entry, repo_dir, unwind, unwindset, stubbing, log_path)
+                        pending_replays.append((o, entry, repo_dir, unwind, unwindset, stubbing))
                     results[o["id"]] = r
+        # replays last: they rebuild with other flags
+        for (o, entry, repo_dir, unwind, unwindset, stubbing) in pending_replays:
+            kh = match_known(o["id"], entry.get("failed_checks") or [], known)
+            if kh is not None:
+                continue  # listed finding: no need to regenerate its replay on every run
+            results[o["id"]]["replay"] = replay(pid, o, entry, repo_dir, unwind, unwindset, stubbing, log_path)
     finally:
         if not keep:
             for r in scratch_roots:
@@ -189,8 +199,8 @@ def run_property(pid, tier, seed, only=None, use_cache=True, keep=False, write_e
                 known_hits.append((o, r, kh))
                 continue
             rp = r.get("replay") or {}
-            if rp.get("reproduced") is False:
-                inconclusive.append((o, "counterexample did not reproduce natively: " + rp.get("note", "")))
+            if rp.get("reproduced") is not True:
+                inconclusive.append((o, "counterexample not reproduced natively (" + str(rp.get("note", "")) + "); solver said: " + str(r.get("detail"))))
                 r["verdict"] = "inconclusive"
                 continue
             violations.append((o, r))
@@ -251,8 +261,9 @@ def write_text_replay(pid, o, r):
 
 
 def replay(pid, o, entry, repo_dir, unwind, unwindset, stubbing, log_path):
-    """Turn the solver's assignment into a unit test (Kani concrete playback) and execute it
-    natively against the scratch copy (real code + models, dev profile)."""
+    """Turn the solver's assignment into a unit test (Kani concrete playback, print mode), append
+    it to the harness module in a *separate* copy of the scratch tree, and execute it natively
+    (real code + models, dev profile). Only a test that fails natively counts as reproduced."""
     os.makedirs(REPLAY_DIR, exist_ok=True)
     out = {"reproduced": None, "note": "", "path": None}
     if entry.get("should_panic"):
@@ -260,13 +271,15 @@ def replay(pid, o, entry, repo_dir, unwind, unwindset, stubbing, log_path):
         out["path"] = write_text_replay(pid, o, dict(detail="expected panic is unreachable", failed_checks=[]))
         out["reproduced"] = True
         return out
-    cmd = ["cargo", "kani", "--target-dir", kani.KANI_TARGET + "-replay", "--harness", o["harness"],
-           "--default-unwind", str(unwind), "--output-format", "terse", "-Z", "unstable-options",
-           "-Z", "concrete-playback", "--concrete-playback=inplace", "--harness-timeout", "1200s"]
+    cmd = ["cargo", "kani", "--target-dir", kani.KANI_TARGET, "--harness", o["harness"],
+           "--output-format", "terse", "-Z", "unstable-options",
+           "-Z", "concrete-playback", "--concrete-playback=print", "--harness-timeout", "1500s"]
+    if not unwindset:
+        cmd += ["--default-unwind", str(unwind)]
     if stubbing:
         cmd += ["-Z", "stubbing"]
     if unwindset:
-        cmd += ["--cbmc-args", "--unwindset", ",".join(f"{k}:{v}" for k, v in unwindset.items())]
+        cmd += ["--cbmc-args", "--unwind", str(unwind), "--unwindset", ",".join(f"{k}:{v}" for k, v in unwindset.items())]
     env = kani._env()
     try:
         p = subprocess.run(cmd, cwd=repo_dir, env=env, stdout=subprocess.PIPE, stderr=subprocess.STDOUT, text=True, timeout=2400)
@@ -274,54 +287,109 @@ def replay(pid, o, entry, repo_dir, unwind, unwindset, stubbing, log_path):
         out["note"] = "concrete playback generation timed out"
         return out
     with open(log_path, "a") as f:
-        f.write("$ " + " ".join(cmd) + "\n" + p.stdout[-6000:] + "\n")
-    # find the generated test
-    src_file = None
-    test_name = None
-    m = re.search(r"Concrete playback unit test.*?added to (\S+)", p.stdout, re.S)
-    for root, dn, fn in os.walk(os.path.join(repo_dir, "src")):
-        for f in fn:
-            if f.endswith(".rs"):
-                s = open(os.path.join(root, f)).read()
-                mm = re.search(r"fn (kani_concrete_playback_\w+)\(\)", s)
-                if mm:
-                    src_file, test_name = os.path.join(root, f), mm.group(1)
-                    test_src = s[s.rfind("#[test]", 0, mm.start()):]
-                    # cut at the end of the test fn
-                    end = test_src.find("\n}\n")
-                    test_src = test_src[: end + 3] if end > 0 else test_src
-    if not test_name:
-        out["note"] = "Kani produced no concrete playback test (no counterexample trace?)"
+        f.write("$ " + " ".join(cmd) + "\n" + p.stdout[-8000:] + "\n")
+    # printed tests: ``` blocks containing `/// Check for `<class>`: "<description>"` and the test fn
+    tests = []
+    for blk in re.findall(r"```\n(.*?)```", p.stdout, re.S):
+        m = re.search(r"fn (kani_concrete_playback_\w+)\(\)", blk)
+        c = re.search(r"Check for `(\w+)`: \"(.*?)\"\s*$", blk, re.M)
+        if m:
+            tests.append((m.group(1), c.group(1) if c else "", c.group(2) if c else "", blk))
+    # prefer the test generated for a failing assertion of the harness / real code, not a cover
+    want = [fc.get("description") or "" for fc in entry.get("failed_checks", [])]
+    chosen = None
+    for t in tests:
+        if t[1] != "cover" and any(t[2] and t[2] in w or w in t[2] for w in want if w):
+            chosen = t
+            break
+    if chosen is None:
+        for t in tests:
+            if t[1] != "cover":
+                chosen = t
+                break
+    if chosen is None:
+        out["note"] = "Kani produced no concrete playback test for a failing check"
         return out
+    name, cls, desc, blk = chosen
+    body = blk[blk.find("#[test]"):]
     path = os.path.join(REPLAY_DIR, f"{pid}_{o['id']}.rs")
     with open(path, "w") as f:
         f.write(f"// Counterexample for property {pid}, obligation {o['id']}: {o['what']}\n")
         f.write(f"// harness {o['harness']}; failing checks:\n")
         for fc in entry.get("failed_checks", []):
-            f.write(f"//   {fc.get('description')} @ {fc.get('function')} ({fc.get('file')}:{fc.get('line')})\n")
-        f.write("// Replay: apply the overlay (lib/scratch.py), paste into the harness module, `cargo kani playback -Z concrete-playback -- " + test_name + "`\n")
-        f.write(test_src + "\n")
+            f.write(f"//   {fc.get('description')} @ {fc.get('function')} ({fc.get('file')}:{fc.get('line')})\n".replace("\n(", " ("))
+        f.write("// Replay: ./check " + pid + " --replay " + path + "  (appends this test to the harness module of a scratch copy\n")
+        f.write("// with the overlay applied and runs `cargo kani playback -Z concrete-playback -- " + name + "`)\n")
+        f.write(body + "\n")
     out["path"] = path
-    cmd2 = ["cargo", "kani", "playback", "-Z", "concrete-playback", "--", test_name]
-    env2 = dict(env)
-    env2["CARGO_TARGET_DIR"] = kani.KANI_TARGET + "-playback"
-    try:
-        p2 = subprocess.run(cmd2, cwd=repo_dir, env=env2, stdout=subprocess.PIPE, stderr=subprocess.STDOUT, text=True, timeout=2400)
-    except subprocess.TimeoutExpired:
-        out["note"] = "native playback timed out"
-        return out
-    with open(log_path, "a") as f:
-        f.write("$ " + " ".join(cmd2) + "\n" + p2.stdout[-6000:] + "\n")
-    if re.search(r"test result: FAILED|panicked at", p2.stdout):
-        out["reproduced"] = True
-        out["note"] = "the generated unit test fails natively (dev profile, real code + models)"
-    elif re.search(r"test result: ok", p2.stdout):
-        out["reproduced"] = False
-        out["note"] = "the generated unit test passes natively"
-    else:
-        out["reproduced"] = None
-        out["note"] = "native playback could not be built/run: " + p2.stdout[-400:]
+    ok, note = run_playback(repo_dir, o, name, body, log_path)
+    out["reproduced"], out["note"] = ok, note
     return out
+
+
+def run_playback(repo_dir, o, name, body, log_path):
+    """Append the generated test to the module that contains the harness, in a copy of the scratch
+    tree, and run it natively. -> (True|False|None, note)"""
+    rel = harness_file_of(o)
+    if rel is None:
+        return None, "cannot locate the harness source file"
+    copy_root = repo_dir.rstrip("/") + "-playback"
+    shutil.rmtree(copy_root, ignore_errors=True)
+    shutil.copytree(repo_dir, copy_root, symlinks=True)
+    try:
+        fp = os.path.join(copy_root, rel)
+        src = open(fp).read()
+        modname = o["harness"].split("::")[-2]
+        i = src.find(f"mod {modname} {{")
+        if i < 0:
+            return None, f"harness module {modname} not found in {rel}"
+        # close of the module = last '}' of the file part that belongs to it: harness modules are
+        # appended last in their file, each closed by a line that is exactly "}"
+        j = src.find("\n}\n", i)
+        depth_end = None
+        k = i
+        depth = 0
+        started = False
+        while k < len(src):
+            ch = src[k]
+            if ch == "{":
+                depth += 1
+                started = True
+            elif ch == "}":
+                depth -= 1
+                if started and depth == 0:
+                    depth_end = k
+                    break
+            k += 1
+        if depth_end is None:
+            return None, "could not find the end of the harness module"
+        src = src[:depth_end] + "\n" + body + "\n" + src[depth_end:]
+        open(fp, "w").write(src)
+        env = kani._env()
+        env["CARGO_TARGET_DIR"] = kani.KANI_TARGET + "-playback"
+        cmd2 = ["cargo", "kani", "playback", "-Z", "concrete-playback", "--", name]
+        try:
+            p2 = subprocess.run(cmd2, cwd=copy_root, env=env, stdout=subprocess.PIPE, stderr=subprocess.STDOUT, text=True, timeout=2400)
+        except subprocess.TimeoutExpired:
+            return None, "native playback timed out"
+        with open(log_path, "a") as f:
+            f.write("$ " + " ".join(cmd2) + "\n" + p2.stdout[-6000:] + "\n")
+        if re.search(r"test result: FAILED", p2.stdout):
+            return True, "the generated unit test fails natively (dev profile, real code + models)"
+        if re.search(r"test result: ok\. 1 passed", p2.stdout):
+            return False, "the generated unit test passes natively"
+        return None, "native playback could not be built/run: " + p2.stdout[-300:]
+    finally:
+        shutil.rmtree(copy_root, ignore_errors=True)
+
+
+def harness_file_of(o):
+    """harness path 'a::b::c::verif_x::name' -> source file of module a::b::c"""
+    parts = o["harness"].split("::")[:-2]
+    for cand in ("src/" + "/".join(parts) + ".rs", "src/" + "/".join(parts) + "/mod.rs"):
+        if os.path.exists(os.path.join(scratch.REPO, cand)):
+            return cand
+    return None
 
 
 # -----------------------------------------------------------------------------------------------
